@@ -61,6 +61,26 @@ CHECKS = {
    text="k in 2..4 threads x n in 1..3 calls of UuidGenerator::next on a shared generator, every interleaving of the counter step (no bound), three namespaces: ids distinct, equal as a set to the first k*n name-based ids computed independently, and reproduced by a fresh generator. Plus the transaction ids of all matches of 2-3 thread level programs sharing one generator, with the counter as a scheduling point.",
    note="SC interleavings; uuid crate trusted for v5",
    tech="stateless model checking under a controlled scheduler (unbounded DFS for the generator programs)"),
+ "C05": dict(engine="gridmc", cat="exploration", ref="5 (C05), 3.4",
+   text="The full Cartesian product of the ten-dimensional input space on a grid of small values and 64-bit boundary values (about 4*10^5 (order, incoming) pairs, all seven types) is evaluated through OrderType::match_against and each result is checked against the statement's predicates (consumed, remaining, conservation of the total, hidden_reduced, the iceberg tranche as an inequality, reserve and plain types exactly, identity fields and parameters unchanged). Exhaustive on the grid; the same rules are observed through the level by engine S.",
+   note="grid points only; the iceberg tranche is checked as the inequality the property states",
+   tech="bounded-exhaustive enumeration of the input grid against the specification predicates"),
+ "C09": dict(engine="gridmc", cat="fault_enumeration", ref="5 (C09), 3.4",
+   text="For each seed level (all templates, two-order books, boundary-value books with both id formats) every truncation point, every single-character deletion / substitution / insertion with 97 characters at every offset of the package JSON, every structural edit (drop / duplicate / swap orders, delete any field, rewrite any number or enum string, version, checksum variants), pairs of structural edits and in-memory edits of the package value are executed through the real restore path. A restore must fail, or yield exactly the snapshotted content (price, aggregates, every order field, re-snapshot text, maker sequence of a draining match); prefixes and unsupported versions must fail.",
+   note="no assumption about SHA-256: every mutated input is executed; seeds as listed in the evidence",
+   tech="exhaustive single- and double-fault enumeration (torn writes, byte edits, structural edits) on the serialized package, executed on the implementation"),
+ "C16": dict(engine="gridmc", cat="exploration", ref="5 (C16), 3.4",
+   text="parse(print(v)) == v for every value of a boundary grid per codec type (about 8*10^5 values: ids in both formats incl. nil / all-ones / max ULID, prices, quantities, timestamps in {0,1,2^53+1,MAX-1,MAX}, i64 limits, seven time-in-force values incl. GTD 0 and MAX, all type parameters, lists of 0..3 elements, levels and queues of 0..3 orders).",
+   note="grid points only",
+   tech="bounded-exhaustive enumeration of the value grid, round-trip equality"),
+ "C17": dict(engine="gridmc", cat="exploration", ref="5 (C17), 3.4",
+   text="from_json(to_json(v)) == v for the same grid as C16 for every serde-enabled type; snapshot packages must still validate after the trip (serde and to_json/from_json); the serde-enabled id generator must continue its sequence.",
+   note="grid points only",
+   tech="bounded-exhaustive enumeration of the value grid, JSON round-trip equality"),
+ "C18": dict(engine="gridmc", cat="exploration", ref="5 (C18), 3.4",
+   text="28 entry points (13 FromStr, 15 JSON). For 77 seeds (a valid encoding per type and variant): every truncation, every deletion / insertion / substitution at every character offset with a 17-symbol alphabet incl. 2-, 3- and 4-byte characters and NUL, every numeric literal rewritten (0, +-1, x10, 2^64-1, 2^64, 40 digits, negative, exponent, hex), every segment duplicated / dropped / swapped; every seed fed to every parser; every string of length <= 4 (thorough 5) over a 15-symbol alphabet after each format prefix; thorough adds all pairs of character edits. Every input is parsed under catch_unwind with a hang watchdog.",
+   note="edits of valid encodings and short strings, not all Unicode strings; an abort of the process is a machinery failure, never a pass",
+   tech="bounded-exhaustive enumeration of single / double edits at every offset, executed on the implementation under a panic and hang guard"),
  "C15": dict(engine="seqmc", cat="model_checking", ref="5 (C15)",
    text="Sequential half: all histories with positive quantities, statistics counters in the state key; after every transition the four counters must equal the events derived from the implementation's own return values. Concurrent half: 2-3 thread programs with the eight statistics atomics as scheduling points, every interleaving within the bound, counters at quiescence vs the events the threads observed.",
    note="orders carry the level's price (the property's premise); SC interleavings",
